@@ -82,4 +82,79 @@ theorem feature_roundtrip (known : String → Option FDomain) (f : ModFeature)
   simp only [this, Bool.false_eq_true, if_false]
   exact hv
 
+
+/-! ### domain features and the look-up of `add_to_record` -/
+
+theorem domainFeatures_locus (gene : String) (strand : Int) : ∀ (ds : List Domain) (counts : List (String × Nat)),
+    ∀ e ∈ domainFeatures gene strand ds counts, e.2.locus = gene ∧ e.2.strand = strand
+  | [], _, e, h => by cases h
+  | d :: ds, counts, e, h => by
+    simp only [domainFeatures] at h
+    rcases List.mem_cons.mp h with h | h
+    · subst h; exact ⟨rfl, rfl⟩
+    · exact domainFeatures_locus gene strand ds _ e h
+
+theorem domainFeatures_mem (gene : String) (strand : Int) : ∀ (ds : List Domain) (counts : List (String × Nat)),
+    ∀ d ∈ ds, ∃ e ∈ domainFeatures gene strand ds counts, e.1 = d
+  | [], _, d, h => by cases h
+  | x :: ds, counts, d, h => by
+    simp only [domainFeatures]
+    rcases List.mem_cons.mp h with h | h
+    · subst h; exact ⟨_, List.mem_cons_self, rfl⟩
+    · obtain ⟨e, he, hd⟩ := domainFeatures_mem gene strand ds _ d h
+      exact ⟨e, List.mem_cons_of_mem _ he, hd⟩
+
+theorem tableOf_isSome (entries : List (Domain × FDomain)) (hit : Domain) (h : ∃ e ∈ entries, e.1 = hit) :
+    (tableOf entries hit).isSome = true := by
+  obtain ⟨e, he, hd⟩ := h
+  unfold tableOf
+  rw [Option.isSome_map, List.find?_isSome]
+  exact ⟨e, List.mem_reverse.mpr he, by simp [hd]⟩
+
+theorem tableOf_mem (entries : List (Domain × FDomain)) (hit : Domain) (d : FDomain)
+    (h : tableOf entries hit = some d) : ∃ e ∈ entries, e.2 = d := by
+  unfold tableOf at h
+  cases hf : entries.reverse.find? (fun e => e.1 == hit) with
+  | none => rw [hf] at h; cases h
+  | some e =>
+    rw [hf] at h; simp at h
+    exact ⟨e, List.mem_reverse.mp (List.mem_of_find?_eq_some hf), h⟩
+
+/-- every gene's dict only holds that gene's own domain features -/
+theorem geneTables_locus (genes : List Gene) (l : String) (hit : Domain) (d : FDomain)
+    (h : geneTables genes l hit = some d) : d.locus = l := by
+  unfold geneTables at h
+  cases hf : genes.find? (fun g => g.name == l) with
+  | none => rw [hf] at h; cases h
+  | some g =>
+    rw [hf] at h
+    obtain ⟨e, he, hd⟩ := tableOf_mem _ _ _ h
+    have := (domainFeatures_locus g.name g.strand g.domains [] e he).1
+    have hn : g.name = l := by simpa using List.find?_some hf
+    rw [← hd, this, hn]
+
+/-- the domains of the reported feature are, in order, the domain features of the module's
+    components, each taken from the dict of the component's OWN gene -/
+theorem lookupDomains_spec (tables : String → Domain → Option FDomain) (holder : String)
+    (hloc : ∀ l h d, tables l h = some d → d.locus = l) :
+    ∀ (comps : List Comp), (∀ c ∈ comps, (tables c.locus c.domain).isSome = true) →
+    ∃ ds, lookupDomains tables holder comps = .ok ds
+      ∧ ds.map some = comps.map (fun c => tables c.locus c.domain)
+      ∧ ds.map (·.locus) = comps.map (·.locus)
+  | [], _ => ⟨[], rfl, rfl, rfl⟩
+  | c :: cs, hall => by
+    obtain ⟨ds, h1, h2, h3⟩ := lookupDomains_spec tables holder hloc cs (fun x hx => hall x (List.mem_cons_of_mem _ hx))
+    have hc := hall c (List.mem_cons_self)
+    cases ht : tables c.locus c.domain with
+    | none => rw [ht] at hc; cases hc
+    | some d =>
+      have hfound : (if c.locus == holder then tables holder c.domain else tables c.locus c.domain) = some d := by
+        by_cases hh : c.locus = holder
+        · simp [hh] at ht ⊢; exact ht
+        · simp [hh, ht]
+      refine ⟨d :: ds, ?_, ?_, ?_⟩
+      · simp only [lookupDomains, hfound, h1]
+      · simp only [List.map_cons, h2, ht]
+      · simp only [List.map_cons, h3, hloc _ _ _ ht]
+
 end ASV.Modules
